@@ -92,10 +92,9 @@ class C19(CheckBase):
             sb = ctx.sb
             files = {name: data, 'out': None}
             argv = ['dfs']
-            if inner.get('second_image'):
-                from sim import dfswork
-                files['second.ssd'] = dfswork.render_image({'ext': 'ssd', 'surfaces': [c07.SECOND]})
-                argv += ['--file', 'second.ssd']
+            pf, pa = c07.CHECK.attach_prefix(inner)
+            files.update(pf)
+            argv += pa
             sb.reset(files)
             argv += ['--file', name] + inner['globals'] + inner['cmd']
             r = ctx.sk.run(sb, ctx.exe(build, 'dfs'), argv, faults=faults, env=env, wall_ms=20000, steps=800000, alloc_mb=256, as_mb=3072)
